@@ -697,6 +697,28 @@ theorem treeShake_keeps_only_reachable {P : Prog} {e : Nat} {out : ShakeOut} (h 
     Just P e out.marks :=
   markAll_just (treeShake_marks h)
 
+theorem treeShake_sweep {P : Prog} {e : Nat} {out : ShakeOut} (h : treeShake P e = some out) :
+    sweep P e out.marks = some out := by
+  have hm := treeShake_marks h
+  unfold treeShake treeShakeWith at h
+  rw [hm] at h
+  exact h
+
+/-- **(T3) Exactness: `tree_shake` keeps exactly what is reachable.** For every program and entry on which
+    the shake succeeds, a function / constant / tuple / type / builtin is kept **iff** it is reachable
+    (`Reach`: the entry, NIL and OK, what kept functions' instructions name — with the first `Type::Tuple`
+    entry of a constructed tuple —, what kept types / tuples / builtins refer to, and the index-only entries
+    of 5a04882). Resource names: kept ⇒ reachable (the other direction is not tracked by `Closed`). -/
+theorem treeShake_keeps_exactly_reachable {P : Prog} {e : Nat} {out : ShakeOut} (h : treeShake P e = some out) :
+    (∀ f, f ∈ out.marks.fns ↔ Reach P e (.fn f)) ∧ (∀ c, c ∈ out.marks.consts ↔ Reach P e (.const c)) ∧
+    (∀ u, u ∈ out.marks.tuples ↔ Reach P e (.tuple u)) ∧ (∀ t, t ∈ out.marks.types ↔ Reach P e (.ty t)) ∧
+    (∀ b, b ∈ out.marks.builtins ↔ Reach P e (.builtin b)) ∧ (∀ n, n ∈ out.marks.resources → Reach P e (.res n)) := by
+  have hj := treeShake_keeps_only_reachable h
+  have hr := reach_marked (treeShake_marks h) (treeShake_sweep h)
+  exact ⟨fun f => ⟨hj.fns f, hr (.fn f)⟩, fun c => ⟨hj.consts c, hr (.const c)⟩,
+    fun u => ⟨hj.tuples u, hr (.tuple u)⟩, fun t => ⟨hj.types t, hr (.ty t)⟩,
+    fun b => ⟨hj.builtins b, hr (.builtin b)⟩, hj.resources⟩
+
 /-- A spawning program in miniature: the entry spawns function 1, whose callable type (entry 1) receives
     and returns `'int`; the process type of the pids it creates is entry 2 — named by no instruction
     (index-only). -/
